@@ -1,5 +1,6 @@
 import StorageModel.Driver.Common
 import StorageModel.C06.Model
+import StorageModel.C06.NoTrace
 /- model driver for C06: `run spec` reads case lines on stdin and prints one output line per case
    (spec = false: the engine model's output; spec = true: the spec's verdict).
    Line protocol: see /verif/harness/c06.go. -/
@@ -105,7 +106,9 @@ def deletedW (spec : Bool) (s s' : State) : String :=
     let ls := Render s'
     let parts := ids.map fun j =>
       if spec then hexB j ++ "=ok/clean"
-      else hexB j ++ "=" ++ (if ls.any (fun l => decide (Mentions j l)) then "found" else "ok") ++ "/" ++ scanW j ls
+      else hexB j ++ "=" ++ (if ls.any (fun l => decide (Mentions j l)) then "found" else "ok") ++ "/" ++ scanW j ls ++
+        -- the hypothesis of the no-trace theorems is evaluated for every validated delete
+        (if noClashCheck j s' then "" else "!noclash")
     ",".intercalate (sortStrings parts)
 
 def runModel (spec : Bool) (vals : List Bytes) (txs : List (List Op)) : String :=
